@@ -3,12 +3,14 @@
 package absnfs
 
 import (
+	"bytes"
 	"fmt"
 	"os"
 	"testing"
 
 	"verif.local/lib/evid"
 	"verif.local/lib/refs"
+	"verif.local/lib/rfc"
 	"verif.local/lib/xdrw"
 )
 
@@ -65,7 +67,7 @@ func TestVerif_C12(t *testing.T) {
 	if thorough {
 		nModes = 4096
 	}
-	rec.Rule = fmt.Sprintf("exhaustive: all %d modes x {file,dir} x 6 caller relations (owner, owner+group, group, aux group, other, uid 0) x 64 masks x read-only on/off through HandleCall; distinct = (kind, relation, read-only, granted mask) tuples", nModes)
+	rec.Rule = fmt.Sprintf("exhaustive: all %d modes x {file,dir} x 11 caller relations over two ownerships (owner 100:200: owner, owner+group, group, aux group, other, uid 0; owner 0:0: uid 0 as owner, uid 0 with another gid, group, aux group, other) x 64 masks x read-only on/off (1 decision in 16 through HandleCall, the others through the same authentication + handler steps); distinct = (kind, relation, read-only, granted mask) tuples", nModes)
 	rec.Exhaustive = true
 	defer rec.Write()
 	type rel struct {
@@ -73,87 +75,119 @@ func TestVerif_C12(t *testing.T) {
 		uid, gid uint32
 		aux      []uint32
 	}
-	const fuid, fgid = 100, 200
-	rels := []rel{{"owner", 100, 999, nil}, {"owner+group", 100, 200, nil}, {"group", 101, 200, nil}, {"aux-group", 101, 999, []uint32{5, 200, 7}}, {"other", 101, 999, []uint32{5}}, {"root", 0, 0, nil}}
+	// two ownership situations: an ordinary owner, and objects owned by 0:0 (this server's
+	// default ownership), where "uid 0" and "owner" coincide
+	type ownerCfg struct {
+		fuid, fgid uint32
+		rels       []rel
+	}
+	cfgs := []ownerCfg{
+		{100, 200, []rel{{"owner", 100, 999, nil}, {"owner+group", 100, 200, nil}, {"group", 101, 200, nil}, {"aux-group", 101, 999, []uint32{5, 200, 7}}, {"other", 101, 999, []uint32{5}}, {"root", 0, 0, nil}}},
+		{0, 0, []rel{{"root-is-owner", 0, 0, nil}, {"root-is-owner-other-gid", 0, 999, nil}, {"group-of-root-owned", 101, 0, nil}, {"aux-group-of-root-owned", 101, 999, []uint32{0}}, {"other-of-root-owned", 101, 999, []uint32{5}}}},
+	}
 	decisions := 0
-	for _, ro := range []bool{false, true} {
-		fs := refs.New()
-		fs.PlantFile("/f", []byte("x"), 0, fuid, fgid)
-		fs.PlantDir("/d", 0, fuid, fgid)
-		srv, err := vfNewSrv(fs, ExportOptions{AttrCacheTimeout: 1, ReadOnly: ro, Squash: "none"})
-		if err != nil {
-			rec.Infra(err.Error())
-			return
-		}
-		c := srv.client()
-		root, _ := c.mnt("/")
-		hs := map[string]uint64{}
-		for _, n := range []string{"f", "d"} {
-			l, _ := c.lookup(root, n)
-			if l == nil || l.Status != 0 {
-				rec.Infra("lookup")
+	for _, oc := range cfgs {
+		fuid, fgid, rels := oc.fuid, oc.fgid, oc.rels
+		for _, ro := range []bool{false, true} {
+			fs := refs.New()
+			fs.PlantFile("/f", []byte("x"), 0, int(fuid), int(fgid))
+			fs.PlantDir("/d", 0, int(fuid), int(fgid))
+			srv, err := vfNewSrv(fs, ExportOptions{AttrCacheTimeout: 1, ReadOnly: ro, Squash: "none"})
+			if err != nil {
+				rec.Infra(err.Error())
 				return
 			}
-			hs[n] = vfFH(l.FH)
-			// plant the owner the server will report for this object
-			node, _ := srv.ph.lookupNode(hs[n])
-			node.mu.Lock()
-			node.attrs.Uid, node.attrs.Gid = fuid, fgid
-			node.mu.Unlock()
-		}
-		clients := make([]*vfClient, len(rels))
-		for i, r := range rels {
-			clients[i] = srv.client()
-			clients[i].Cred = xdrw.AuthSys(1, "h", r.uid, r.gid, r.aux)
-		}
-		for m := 0; m < nModes; m++ {
-			perm := os.FileMode(m & 0777)
-			if m&04000 != 0 {
-				perm |= os.ModeSetuid
+			c := srv.client()
+			root, _ := c.mnt("/")
+			hs := map[string]uint64{}
+			for _, n := range []string{"f", "d"} {
+				l, _ := c.lookup(root, n)
+				if l == nil || l.Status != 0 {
+					rec.Infra("lookup")
+					return
+				}
+				hs[n] = vfFH(l.FH)
+				// plant the owner the server will report for this object
+				node, _ := srv.ph.lookupNode(hs[n])
+				node.mu.Lock()
+				node.attrs.Uid, node.attrs.Gid = fuid, fgid
+				node.mu.Unlock()
 			}
-			if m&02000 != 0 {
-				perm |= os.ModeSetgid
+			clients := make([]*vfClient, len(rels))
+			for i, r := range rels {
+				clients[i] = srv.client()
+				clients[i].Cred = xdrw.AuthSys(1, "h", r.uid, r.gid, r.aux)
 			}
-			if m&01000 != 0 {
-				perm |= os.ModeSticky
+			// decide asks the server. One decision in 16 goes through the full HandleCall path;
+			// the others perform the same steps (authentication against the policy snapshot,
+			// effective ids on the context, then the procedure handler) without the per-call
+			// goroutine and timeout machinery, which is what makes the exhaustive sweep affordable.
+			decide := func(ri int, h uint64, mask uint32) (*rfc.Res, error) {
+				if decisions%16 == 0 {
+					return clients[ri].access(h, mask)
+				}
+				cred := clients[ri].Cred
+				ctx := &AuthContext{ClientIP: "127.0.0.1", ClientPort: 700, Credential: &RPCCredential{Flavor: cred.Flavor, Body: cred.Body}}
+				ar := ValidateAuthentication(ctx, srv.nfs.policy.Load())
+				if !ar.Allowed {
+					return nil, fmt.Errorf("authentication refused: %s", ar.Reason)
+				}
+				ctx.EffectiveUID, ctx.EffectiveGID = ar.UID, ar.GID
+				out, err := srv.ph.handleAccess(bytes.NewReader(xdrw.ArgAccess(h, mask)), &RPCReply{}, ctx)
+				if err != nil {
+					return nil, err
+				}
+				data, _ := out.Data.([]byte)
+				return rfc.DecodeNFS(4, data)
 			}
-			fs.SetPerm("/f", perm)
-			fs.SetPerm("/d", perm)
-			for _, kind := range []string{"f", "d"} {
-				for ri, r := range rels {
-					for mask := uint32(0); mask < 64; mask++ {
-						decisions++
-						res, err := clients[ri].access(hs[kind], mask)
-						if err != nil || res == nil || res.Status != 0 || !res.Obj.Present {
-							rec.Violate("C12/access-failed", fmt.Sprintf("%v %+v", err, res), nil)
-							return
-						}
-						a := res.Obj.A
-						must, may := vfAccessRule(a.Type == 2, a.Mode, a.UID, a.GID, r.uid, r.gid, r.aux, ro, mask)
-						g := res.Access
-						desc := fmt.Sprintf("mode=%04o kind=%s relation=%s mask=%#x ro=%v reported(type=%d mode=%o uid=%d gid=%d) granted=%#x want=%#x", m, kind, r.name, mask, ro, a.Type, a.Mode, a.UID, a.GID, g, must)
-						if g&^mask != 0 {
-							rec.Violate("C12/granted-not-subset-of-request", desc, desc)
-						} else if g&^may != 0 {
-							bit := g &^ may
-							rec.Violate(fmt.Sprintf("C12/over-grant/bit=%#x/kind=%s/relation=%s", bit&-bit, kind, r.name), desc, desc)
-						} else if must&^g != 0 {
-							bit := must &^ g
-							rec.Violate(fmt.Sprintf("C12/under-grant/bit=%#x/kind=%s/relation=%s", bit&-bit, kind, r.name), desc, desc)
-						}
-						if mask == 63 {
-							rec.Distinct(fmt.Sprintf("%s|%s|ro=%v|granted=%#x", kind, r.name, ro, g))
-						}
-						if a.Mode != uint32(m&0777) {
-							// the reported mode is what the decision was judged against; note disagreement with the backend once
-							rec.Add("reported_mode_differs_from_backend", 1)
+			for m := 0; m < nModes; m++ {
+				perm := os.FileMode(m & 0777)
+				if m&04000 != 0 {
+					perm |= os.ModeSetuid
+				}
+				if m&02000 != 0 {
+					perm |= os.ModeSetgid
+				}
+				if m&01000 != 0 {
+					perm |= os.ModeSticky
+				}
+				fs.SetPerm("/f", perm)
+				fs.SetPerm("/d", perm)
+				for _, kind := range []string{"f", "d"} {
+					for ri, r := range rels {
+						for mask := uint32(0); mask < 64; mask++ {
+							decisions++
+							res, err := decide(ri, hs[kind], mask)
+							if err != nil || res == nil || res.Status != 0 || !res.Obj.Present {
+								rec.Violate("C12/access-failed", fmt.Sprintf("%v %+v", err, res), nil)
+								return
+							}
+							a := res.Obj.A
+							must, may := vfAccessRule(a.Type == 2, a.Mode, a.UID, a.GID, r.uid, r.gid, r.aux, ro, mask)
+							g := res.Access
+							desc := fmt.Sprintf("mode=%04o kind=%s relation=%s mask=%#x ro=%v reported(type=%d mode=%o uid=%d gid=%d) granted=%#x want=%#x", m, kind, r.name, mask, ro, a.Type, a.Mode, a.UID, a.GID, g, must)
+							if g&^mask != 0 {
+								rec.Violate("C12/granted-not-subset-of-request", desc, desc)
+							} else if g&^may != 0 {
+								bit := g &^ may
+								rec.Violate(fmt.Sprintf("C12/over-grant/bit=%#x/kind=%s/relation=%s", bit&-bit, kind, r.name), desc, desc)
+							} else if must&^g != 0 {
+								bit := must &^ g
+								rec.Violate(fmt.Sprintf("C12/under-grant/bit=%#x/kind=%s/relation=%s", bit&-bit, kind, r.name), desc, desc)
+							}
+							if mask == 63 {
+								rec.Distinct(fmt.Sprintf("%s|%s|ro=%v|granted=%#x", kind, r.name, ro, g))
+							}
+							if a.UID != fuid || a.GID != fgid {
+								rec.Add("reported_owner_differs_from_planted", 1)
+							}
 						}
 					}
 				}
 			}
+			srv.Close()
 		}
-		srv.Close()
 	}
 	rec.Eval(decisions)
-	rec.Sample(map[string]any{"modes": nModes, "relations": []string{"owner", "owner+group", "group", "aux-group", "other", "root"}, "masks": 64, "decisions": decisions})
+	rec.Sample(map[string]any{"modes": nModes, "relations": []string{"owner", "owner+group", "group", "aux-group", "other", "root", "root-is-owner", "root-is-owner-other-gid", "group-of-root-owned", "aux-group-of-root-owned", "other-of-root-owned"}, "masks": 64, "decisions": decisions})
 }
